@@ -311,6 +311,9 @@ class Body:
     def whole_defs(self, local, dedupe=True):
         """Definitions that assign the whole local (no projection on the lhs). Jump threading (flat.py) duplicates
         blocks: textually identical assignments of the same rvalue count once."""
+        pin = self.__dict__.get("_pin")
+        if pin and local in pin:
+            return pin[local]           # one definition singled out (an analysis looks at the paths through it only)
         key = (local, dedupe)
         cache = self.__dict__.setdefault("_wd_cache", {})
         if key in cache:
@@ -366,10 +369,10 @@ class Body:
         proj = list(pl["p"])
         base = pl["l"]
         np_ = [p for p in proj if p != "deref"]
-        if np_ and isinstance(np_[0], dict) and "f" in np_[0] and not np_[0].get("adt"):
-            # a component of a tuple literal: `(a, b).1` is b
+        if np_ and isinstance(np_[0], dict) and "f" in np_[0]:
+            # a component of a tuple literal (or of a struct literal that merely bundles values): `(a, b).1` is b
             ds0 = self.whole_defs(base)
-            if len(ds0) == 1 and ds0[0][0] == "stmt" and ds0[0][3]["rv"]["k"] == "agg" and ds0[0][3]["rv"]["what"] == "tuple" \
+            if len(ds0) == 1 and ds0[0][0] == "stmt" and _bundle_literal(self, ds0[0][3]["rv"], np_[0]) \
                     and len(self.defs.get(base, [])) == 1 and np_[0]["f"] < len(ds0[0][3]["rv"]["ops"]):
                 o = ds0[0][3]["rv"]["ops"][np_[0]["f"]]
                 if o.get("k") == "const":
@@ -537,9 +540,9 @@ class Body:
         pl = x["pl"] if "pl" in x else x
         # field-sensitive step through tuple aggregates: `(a, b).1` derives from b only
         projs = [p for p in pl["p"] if p != "deref"]
-        if projs and isinstance(projs[0], dict) and "f" in projs[0] and not projs[0].get("adt"):
+        if projs and isinstance(projs[0], dict) and "f" in projs[0]:
             ds0 = self.whole_defs(pl["l"])
-            if len(ds0) == 1 and ds0[0][0] == "stmt" and ds0[0][3]["rv"]["k"] == "agg" and ds0[0][3]["rv"]["what"] == "tuple" \
+            if len(ds0) == 1 and ds0[0][0] == "stmt" and _bundle_literal(self, ds0[0][3]["rv"], projs[0]) \
                     and len(self.defs.get(pl["l"], [])) == 1:
                 k = projs[0]["f"]
                 ops = ds0[0][3]["rv"]["ops"]
@@ -985,7 +988,7 @@ class Body:
                 if src.get("k") != "const":
                     sp = src["pl"]
                     return self.canon({"l": sp["l"], "p": list(sp["p"]) + proj}, depth + 1)
-            if rv["k"] == "agg" and rv["what"] == "tuple" and proj and isinstance(proj[0], dict) and "f" in proj[0]:
+            if proj and isinstance(proj[0], dict) and "f" in proj[0] and _bundle_literal(self, rv, proj[0]):
                 k = proj[0]["f"]
                 if k < len(rv["ops"]) and rv["ops"][k].get("k") != "const":
                     sp = rv["ops"][k]["pl"]
@@ -997,12 +1000,27 @@ class Body:
         same (canonical, never reassigned) place."""
         known = {}
         flags = {}      # local -> constant it holds at this point of the path (`matches!(..)` leaves such a flag)
+        lits = {}       # local -> discriminant value of the enum literal it was last given on this path
         for a, b in zip(path, path[1:]):
             for st in self.blocks[a]["stmts"]:
+                if st["k"] == "assign" and not st["lhs"]["p"]:
+                    rv0 = st["rv"]
+                    if rv0["k"] == "agg" and rv0.get("what") == "adt" and isinstance(rv0.get("vi"), int) and not self._addr_taken(st["lhs"]["l"]):
+                        lits[st["lhs"]["l"]] = rv0["vi"]
+                    elif rv0["k"] == "use" and rv0["op"].get("k") in ("move", "copy") and not rv0["op"]["pl"]["p"] and rv0["op"]["pl"]["l"] in lits:
+                        lits[st["lhs"]["l"]] = lits[rv0["op"]["pl"]["l"]]
+                    else:
+                        lits.pop(st["lhs"]["l"], None)
+                elif st["k"] == "assign":
+                    lits.pop(st["lhs"]["l"], None)
                 if st["k"] == "assign" and not st["lhs"]["p"]:
                     rv = st["rv"]
                     if rv["k"] == "use" and rv["op"].get("k") == "const" and isinstance(rv["op"].get("val"), bool):
                         flags[st["lhs"]["l"]] = rv["op"]["val"]
+                    elif rv["k"] == "use" and rv["op"].get("k") in ("move", "copy") and not rv["op"]["pl"]["p"] and rv["op"]["pl"]["l"] in flags:
+                        flags[st["lhs"]["l"]] = flags[rv["op"]["pl"]["l"]]
+                    elif rv["k"] == "un" and rv["op"] == "Not" and rv["a"].get("k") in ("move", "copy") and not rv["a"]["pl"]["p"] and rv["a"]["pl"]["l"] in flags:
+                        flags[st["lhs"]["l"]] = not flags[rv["a"]["pl"]["l"]]
                     else:
                         flags.pop(st["lhs"]["l"], None)
                 elif st["k"] == "assign":
@@ -1010,8 +1028,28 @@ class Body:
             t = self.term(a)
             if t["k"] == "call" and t.get("dest"):
                 flags.pop(t["dest"]["l"], None)
+                lits.pop(t["dest"]["l"], None)
+                if not t["dest"]["p"] and (callee_name(t) or "").endswith("FromResidual::from_residual"):
+                    st_ = ((t.get("callee") or {}).get("self_ty") or "") or (((t.get("callee") or {}).get("args") or [""])[0])
+                    if st_.startswith("std::result::Result<"):
+                        lits[t["dest"]["l"]] = 1
+                    elif st_.startswith("std::option::Option<"):
+                        lits[t["dest"]["l"]] = 0
             if t["k"] != "switch":
                 continue
+            if t["op"].get("k") in ("move", "copy") and not t["op"]["pl"]["p"]:
+                # `d = discr(x); switch d`: x was given a literal on this path
+                dd = self.whole_defs(t["op"]["pl"]["l"])
+                if len(dd) >= 1 and all(d_[0] == "stmt" and d_[3]["rv"]["k"] == "discr" for d_ in dd):
+                    here = [st for st in self.blocks[a]["stmts"] if st["k"] == "assign" and st["lhs"]["l"] == t["op"]["pl"]["l"] and st["rv"]["k"] == "discr"]
+                    src = here[-1]["rv"]["pl"] if here else (dd[0][3]["rv"]["pl"] if len(dd) == 1 else None)
+                    if src is not None and not [p for p in src["p"] if p != "deref"] and src["l"] in lits:
+                        want = lits[src["l"]]
+                        tg = [x for v, x in t["targets"] if v == want]
+                        nxt = tg[0] if tg else t["otherwise"]
+                        if nxt is not None and b != nxt:
+                            return False
+                        continue
             if t.get("ty") == "bool" and t["op"].get("k") in ("move", "copy") and not t["op"]["pl"]["p"] and t["op"]["pl"]["l"] in flags \
                     and not self._addr_taken(t["op"]["pl"]["l"]):
                 want = int(flags[t["op"]["pl"]["l"]])
@@ -1059,12 +1097,27 @@ class Body:
         return "%s:%s" % (src["file"] if src else self.fn["file"], self.line_of(bb))
 
 
+def _bundle_literal(body, rv, fproj):
+    """rv is a literal that merely bundles its operands and fproj projects one of them out again: a tuple literal, or a
+    literal of a private struct of the crate (`RxParts { buf, size, .. }` in place of a tuple of borrows)."""
+    if rv.get("k") != "agg":
+        return False
+    if rv.get("what") == "tuple":
+        return not fproj.get("adt")
+    if rv.get("what") == "adt" and fproj.get("adt") and rv.get("adt") == fproj.get("adt") and body.facts is not None:
+        a = body.facts.adt(rv["adt"])
+        return bool(a) and a["kind"] == "struct" and not a.get("pub") and re.match(r"(client|io|codec|core)::", rv["adt"]) is not None \
+            and not re.search(r"::(Session|Connection)$", rv["adt"])
+    return False
+
+
 def _rv_sig(rv):
     def osig(o):
         if o is None:
             return None
         if o.get("k") == "const":
-            return ("c", str(o.get("val")), str((o.get("uneval") or {}).get("def")))
+            u = o.get("uneval") or {}
+            return ("c", str(o.get("val")), str(u.get("def")), str(u.get("self_ty")), str(u.get("eval")))
         return ("p", _place_key(o["pl"]))
     k = rv["k"]
     if k in ("use", "cast"):
@@ -1147,7 +1200,7 @@ def symex(body, x, depth=0):
             if src.get("k") != "const":
                 sp = src["pl"]
                 return symex(body, {"l": sp["l"], "p": list(sp["p"]) + proj}, depth + 1)
-        if rv["k"] == "agg" and rv.get("what") == "tuple" and isinstance(proj[0], dict) and "f" in proj[0] and proj[0]["f"] < len(rv["ops"]) \
+        if isinstance(proj[0], dict) and "f" in proj[0] and _bundle_literal(body, rv, proj[0]) and proj[0]["f"] < len(rv["ops"]) \
                 and len(body.defs.get(pl["l"], [])) == 1:
             # a component of a tuple literal
             o = rv["ops"][proj[0]["f"]]
